@@ -1,8 +1,8 @@
 PROP = {
     "id": "C51",
     "theorem_modules": ["Verif.Properties.C51"],
-    "min_theorems": 13,
-    "required_theorems": ["Verif.Properties.C51.orderedmap_refines", "Verif.Properties.C51.bimap_refines", "Verif.Properties.C51.bimap_inverse", "Verif.Properties.C51.ist_invariant", "Verif.Properties.C51.ist_search_sound_complete"],
+    "min_theorems": 16,
+    "required_theorems": ["Verif.Properties.C51.orderedmap_refines", "Verif.Properties.C51.bimap_refines", "Verif.Properties.C51.bimap_inverse", "Verif.Properties.C51.ist_invariant", "Verif.Properties.C51.ist_search_sound_complete", "Verif.Properties.C51.pset_refines", "Verif.Properties.C51.ist_searchAll_exact"],
     "streams": [
         {"name": "ds", "driver": "drv_ds",
          "quick": {"n": 1500}, "thorough": {"n": 12000, "seeds": 4}},
